@@ -29,4 +29,7 @@ VARIANTS = [
     V("N-math-floor", I, "    offset = int(np.floor(clip.start_time * samplerate))", "    import math\n\n    offset = math.floor(clip.start_time * samplerate)", None),
     V("N-rename-duration", I, "    duration = clip.end_time - clip.start_time\n    samples = int(np.floor(duration * samplerate))", "    length = clip.end_time - clip.start_time\n    samples = int(np.floor(length * samplerate))", None),
     V("N-hop-samples-local", S, "                step=(nperseg - noverlap) / samplerate,", "                step=nperseg / samplerate - noverlap / samplerate,", None),
+    # wave 7
+    V("stft-zero-padded-to-power-of-two", "src/soundevent/audio/spectrograms.py", "        nperseg=nperseg,\n", "        nperseg=nperseg,\n        nfft=1 << (nperseg - 1).bit_length(),\n", "R15.3"),
+    V("N-stft-nfft-default", "src/soundevent/audio/spectrograms.py", "        nperseg=nperseg,\n", "        nperseg=nperseg,\n        nfft=None,\n", None),
 ]
